@@ -180,7 +180,10 @@ EChecks(n) ==
                    <<[x \in Ins(n) |-> e.wins[x]] = wins, Err("StepWindow", at, wins, e.wins)>>,
                    <<e.h_out = hn, Err("StepOutput", at, hn, e.h_out)>> >>
             ELSE <<>>
-  IN FirstErr(rec \o obs \o lg)
+      \* the execution count is judged first: a step that ran with a foreign sequence number is an ExactlyOnce failure,
+      \* whatever else it then gets wrong
+      lgfirst == IF Len(lg) > 0 THEN <<lg[1]>> ELSE <<>>
+  IN FirstErr(lgfirst \o rec \o obs \o lg)
 
 DoE(n) ==
   LET e == EChecks(n) IN
